@@ -29,7 +29,6 @@ ASSUMPTIONS = ["p is an odd prime and the discriminant is non-zero in the search
                "search domain: stored coordinates reduced to [0,p), Z != 0 mod p, operands on the curve (what the library "
                "constructors are given and what its operations return); kernel-level calls additionally with -Y2 and x+p as "
                "the library's own loops produce them",
-               "-INFINITY raises AttributeError in the code and in the model; unary minus of the INFINITY singleton is not in the search domain",
                "open known finding K1: on curves with a point of order 2 a case where an operand, intermediate or result has "
                "y = 0 is reported as KNOWN-FINDING, not as a violation"]
 
@@ -504,9 +503,9 @@ def check_case(case):
                     cmp_result("R+(-Q)", R + (-mk(1)), c, v1, fails, [Sv, n2])
                     cmp_result("(-Q)+R", (-mk(1)) + R, c, v1, fails, [Sv, n2])
                     cmp_result("R.double()", R.double(), c, D, fails, [Sv])
-                    if R is not E.INFINITY:
-                        cmp_result("-R", -R, c, NS, fails, [Sv])
-                        cmp_result("R+(-R)", R + (-R), c, None, fails, [Sv, NS])
+                    # also when R is the INFINITY singleton: -INFINITY must be INFINITY (fixed finding F12)
+                    cmp_result("-R", -R, c, NS, fails, [Sv])
+                    cmp_result("R+(-R)", R + (-R), c, None, fails, [Sv, NS])
                     C = mk(1) + mk(0)
                     if not (C == R) or not (R == C):
                         fails.append({"step": "Q+P == P+Q", "observed": "False", "expected": "True", "pts": [Sv]})
@@ -600,6 +599,11 @@ def search_corpus(S):
             S.case(mkcase(cu, "neg", [tk(J(x, y, 1))]), "corpus.F2")
             S.case(mkcase(cu, "chain", [tk(J(x, y, 1)), tk(J(x, (-y) % tp, 1))]), "corpus.F2")
     # K1 witness
+    # F12 (fixed): -INFINITY raised AttributeError; reachable from library results such as -(P + (-P))
+    S.case(mkcase(cur, "neg", ["inf"], "NIST256p"), "corpus.F12")
+    S.case(mkcase(cur, "chain", [tk(J(gx, gy, 1)), tk(J(gx, p - gy, 1))], "NIST256p"), "corpus.F12")
+    S.case(mkcase((11, 1, 6), "neg", ["inf"]), "corpus.F12")
+    S.case(mkcase((11, 1, 6), "chain", [tk(J(2, 7, 1)), tk(J(2, 4, 1))]), "corpus.F12")
     S.case(mkcase((11, 0, 1), "add", [tk(J(0, 1, 1)), tk(J(2, 3, 1))]), "corpus.K1")
     S.case(mkcase((11, 0, 1), "add", [tk(A(0, 1)), tk(A(2, 3))]), "corpus.K1.legacy")
 
@@ -652,6 +656,7 @@ def search_toy_curve(ctx, S, p, a, b):
     S.case(mkcase(cur, "add", ["inf", "inf"]), pre + "add.identity")
     S.case(mkcase(cur, "eq", ["inf", "inf"]), pre + "eq.inf")
     S.case(mkcase(cur, "double", ["inf"]), pre + "double.inf")
+    S.case(mkcase(cur, "neg", ["inf"]), pre + "neg.inf")
     if b % p:
         S.case(mkcase(cur, "double", [tk(J(0, 0, 1))]), pre + "double.identity.jacobi")
         S.case(mkcase(cur, "neg", [tk(J(0, 0, 1))]), pre + "neg.identity.jacobi")
